@@ -67,6 +67,9 @@ func (b *Builder) expr1(e ast.Expr) *Term {
 				return b.expr(x.X) // generic instantiation
 			}
 		}
+		if ts := b.constStructMapLookup(x, false); ts != nil {
+			return ts[0]
+		}
 		it := mk("index", "", b.expr(x.X), b.expr(x.Index))
 		if _, isMap := b.info.TypeOf(x.X).Underlying().(*types.Map); !isMap {
 			ist := &Site{Kind: "index", Pos: x.Lbrack, T: it, Base: it.Args[0], Idx: it.Args[1], Why: b.P.typeStr(b.info.TypeOf(x.X))}
@@ -482,6 +485,9 @@ func (b *Builder) multi(e ast.Expr, n int) []*Term {
 		}
 		return ts
 	case *ast.IndexExpr:
+		if ts := b.constStructMapLookup(x, true); ts != nil {
+			return ts
+		}
 		t := mk("index", "", b.expr(x.X), b.expr(x.Index))
 		return []*Term{t, mk("ok", "", t)}
 	case *ast.TypeAssertExpr:
@@ -847,4 +853,132 @@ func (b *Builder) dispatchLits(call *ast.CallExpr, id *ast.Ident, lits []*ast.Fu
 		return nil
 	}
 	return out
+}
+
+// constStructMapLookup: m[k] where m is a package-level map that is never
+// written after its declaration, keyed by a struct type, with a literal of
+// constant rows. Built as the chain of field-wise comparisons a switch over the
+// rows would be (so a table kept as a map and a table kept as a switch yield
+// the same conditions and constants). Returns (value) or (value, ok).
+func (b *Builder) constStructMapLookup(x *ast.IndexExpr, wantOK bool) []*Term {
+	var v *types.Var
+	switch y := ast.Unparen(x.X).(type) {
+	case *ast.Ident:
+		v, _ = b.info.Uses[y].(*types.Var)
+	case *ast.SelectorExpr:
+		if _, isSel := b.info.Selections[y]; !isSel {
+			v, _ = b.info.Uses[y.Sel].(*types.Var)
+		}
+	}
+	if v == nil || !isPkgLevel(v) {
+		return nil
+	}
+	mt, ok := v.Type().Underlying().(*types.Map)
+	if !ok {
+		return nil
+	}
+	kst, ok := mt.Key().Underlying().(*types.Struct)
+	if !ok || kst.NumFields() == 0 {
+		return nil
+	}
+	pk := b.P.All[v.Pkg().Path()]
+	if pk == nil || !isProductPkg(pk.PkgPath, b.P.ModPath) || !b.P.neverWritten(v) {
+		return nil
+	}
+	init := findInit(pk.Syntax, pk.TypesInfo, v)
+	cl, ok := ast.Unparen(init).(*ast.CompositeLit)
+	if !ok || len(cl.Elts) == 0 || len(cl.Elts) > 32 {
+		return nil
+	}
+	type row struct {
+		fields []*Term
+		val    *Term
+	}
+	var rows []row
+	for _, e := range cl.Elts {
+		kv, ok := e.(*ast.KeyValueExpr)
+		if !ok {
+			return nil
+		}
+		kl, ok := ast.Unparen(kv.Key).(*ast.CompositeLit)
+		if !ok {
+			return nil
+		}
+		vtv, has := pk.TypesInfo.Types[kv.Value]
+		if !has || vtv.Value == nil {
+			return nil
+		}
+		r := row{fields: make([]*Term, kst.NumFields()), val: constTerm(vtv.Value)}
+		for i, fe := range kl.Elts {
+			idx := i
+			ve := fe
+			if fkv, isKV := fe.(*ast.KeyValueExpr); isKV {
+				idx = -1
+				for j := 0; j < kst.NumFields(); j++ {
+					if id, ok := fkv.Key.(*ast.Ident); ok && kst.Field(j).Name() == id.Name {
+						idx = j
+					}
+				}
+				ve = fkv.Value
+			}
+			tv, has := pk.TypesInfo.Types[ve]
+			if idx < 0 || idx >= len(r.fields) || !has || tv.Value == nil {
+				return nil
+			}
+			r.fields[idx] = constTerm(tv.Value)
+		}
+		for j := range r.fields {
+			if r.fields[j] == nil {
+				return nil // a zero field left out: keep it simple
+			}
+		}
+		rows = append(rows, r)
+	}
+	var zero *Term
+	switch u := mt.Elem().Underlying().(type) {
+	case *types.Basic:
+		switch {
+		case u.Info()&types.IsString != 0:
+			zero = konst(`""`)
+		case u.Info()&types.IsBoolean != 0:
+			zero = tFalse
+		case u.Info()&types.IsNumeric != 0:
+			zero = konst("0")
+		}
+	}
+	if zero == nil {
+		return nil
+	}
+	// evaluate the key once
+	kvv := b.tempVar("mkey", mt.Key())
+	b.assignVar(kvv, b.expr(x.Index), x.Pos())
+	val := b.tempVar("mval", mt.Elem())
+	okv := b.tempVar("mok", types.Typ[types.Bool])
+	done := b.label()
+	for _, r := range rows {
+		next := b.label()
+		for j, fc := range r.fields {
+			ft := mk("field", kst.Field(j).Name(), varTerm(kvv))
+			ft.Owner = b.P.typeStr(mt.Key())
+			t := b.label()
+			n := b.newNode(NBranch, x.Pos())
+			n.Cond = mk("bin", "==", ft, fc)
+			b.emit(n)
+			n.Succ = []*Node{t, next}
+			b.cur = nil
+			b.start(t)
+		}
+		b.assignVar(val, r.val, x.Pos())
+		b.assignVar(okv, tTrue, x.Pos())
+		b.jump(done)
+		b.start(next)
+	}
+	b.assignVar(val, zero, x.Pos())
+	b.assignVar(okv, tFalse, x.Pos())
+	b.jump(done)
+	b.start(done)
+	if wantOK {
+		return []*Term{varTerm(val), varTerm(okv)}
+	}
+	return []*Term{varTerm(val)}
 }
